@@ -3776,6 +3776,7 @@ func (fastpathDT[T]) DecSliceIntfY(v []interface{}, d *decoder[T]) (v2 []interfa
 	hasLen := containerLenS >= 0
 	var j int
 	fnv := func(dst []interface{}) { v, changed = dst, true }
+	len0 := len(v) // elements at or beyond the original length hold no prior value
 	for ; d.containerNext(j, containerLenS, hasLen); j++ {
 		if j == 0 {
 			if containerLenS == len(v) {
@@ -3801,7 +3802,11 @@ func (fastpathDT[T]) DecSliceIntfY(v []interface{}, d *decoder[T]) (v2 []interfa
 		if j >= len(v) {
 			fnv(append(v, nil))
 		}
+		if j >= len0 {
+			v[uint(j)] = nil
+		}
 		d.decode(&v[uint(j)])
+
 	}
 	if j < len(v) {
 		fnv(v[:uint(j)])
